@@ -161,7 +161,28 @@ func c13FreeProperty(t *rapid.T) {
 		}
 		c.Class("free:group-replaced-before-writing")
 	}
-	m.Body.SetGroup(g.qf())
+	gq := g.qf()
+	m.Body.SetGroup(gq)
+	if rapid.IntRange(0, 3).Draw(t, "group-object-goes-on-to-another-message") == 0 {
+		// the caller keeps the group object, changes it and puts it into the next message before
+		// this one is serialised: this message holds what the group was when it was set
+		for i := 0; i < gq.Len(); i++ {
+			for _, mm := range tm.members {
+				if mm.nested == nil && gq.Get(i).Has(quickfix.Tag(mm.tag)) {
+					gq.Get(i).SetString(quickfix.Tag(mm.tag), rapid.StringMatching(`[A-Z]{0,6}`).Draw(t, "later-value"))
+				}
+			}
+		}
+		if rapid.Bool().Draw(t, "entry-added-later") {
+			gq.Add().SetString(quickfix.Tag(tm.members[0].tag), "later")
+		}
+		next := quickfix.NewMessage()
+		next.Header.SetString(8, "FIX.4.4")
+		next.Header.SetString(35, "D")
+		next.Body.SetGroup(gq)
+		_ = next.String()
+		c.Class("free:group-object-reused-for-the-next-message")
+	}
 	raw := []byte(m.String())
 	c.Eval()
 	pos := "middle"
